@@ -23,6 +23,7 @@ def run(prog, chk):
         "the metrics tables are only written by their own builders (R04.7)",
         "per-glyph records are computed from that glyph alone: no loop-carried variable feeds them (R04.8)",
         "OS/2 first / last character index = min / max of the mapped code points, last capped at 0xFFFF, 0xFFFF without code points; maxp.numGlyphs = number of glyphs in the glyph order; post 2.0 names follow the glyph order; VORG default = most frequent origin, records for the others (R04.6)",
+        "a glyph loses its box only when the compiled glyph has no outline (all-zero box) (R04.9); no advance / vertical origin / box value is dropped or defaulted by a truthiness test (R04.10)",
     ]
     chk.not_decided += ["save / reload / re-save byte identity (fontTools)", "glyph bounding box arithmetic (pens)", "values recalculated by fontTools at compile time (maxp for glyf, OS/2 indices)"]
     chk.guard(r041, prog, chk)
@@ -34,6 +35,7 @@ def run(prog, chk):
     chk.guard(r047, prog, chk)
     chk.guard(r048, prog, chk)
     chk.guard(r049, prog, chk)
+    chk.guard(r0410, prog, chk)
 
 
 # ----------------------------------------------------------------------------- R04.1
@@ -409,7 +411,46 @@ def r049(prog, chk):
     chk.minimum("R04.9", 3)
 
 
+
+# ----------------------------------------------------------------------------- R04.10
+METRIC_ATTRS = ("width", "height", "verticalOrigin", "xMin", "yMin", "xMax", "yMax")
+
+
+def _metric_valued(prog, fi, e, depth=0) -> bool:
+    """e may hold an advance, a vertical origin or a box edge - numbers for which 0 is a legitimate value."""
+    if depth > 5:
+        return False
+    if isinstance(e, ast.Attribute) and e.attr in METRIC_ATTRS:
+        return True
+    if isinstance(e, ast.Call) and A.callee_name(e) in ("otRound", "round", "int", "_getVerticalOrigin") and (e.args or A.callee_name(e) == "_getVerticalOrigin"):
+        return A.callee_name(e) == "_getVerticalOrigin" or _metric_valued(prog, fi, e.args[0], depth + 1)
+    if isinstance(e, ast.IfExp):
+        return _metric_valued(prog, fi, e.body, depth + 1) or _metric_valued(prog, fi, e.orelse, depth + 1)
+    if isinstance(e, ast.Name):
+        for d in prog.reaching(fi, e.id, e):
+            v, how = d.element()
+            if v is None or d.kind == "param":
+                continue
+            if how is None and _metric_valued(prog, fi, v, depth + 1):
+                return True
+    return False
+
+
+def r0410(prog, chk):
+    """0 is a legitimate advance, vertical origin and box edge: the metrics builders never drop or default such a value by a
+    truthiness test (`if width`, `height or default`, filter(None, ...))."""
+    from .rounding import check_no_truthiness_on_coordinates
+    n = check_no_truthiness_on_coordinates(prog, chk, "R04.10", ["ufo2ft.outlineCompiler"], valued=_metric_valued, what="an advance / origin / box value",
+                                           only_functions=lambda fi: fi.name.startswith(("setupTable_", "_setupTable_", "make", "_getVerticalOrigin", "getCharStringForGlyph")))
+    need(n >= 20, "truthiness scan of the metrics builders found too few tests")
+    chk.minimum("R04.10", 1)
+
+
 MUTANTS = [
+    M("an explicit vertical origin of 0 falls back to the ascender", "ufo2ft/outlineCompiler.py", "_getVerticalOrigin",
+      "hasattr(glyph, 'verticalOrigin') and glyph.verticalOrigin is not None", "hasattr(glyph, 'verticalOrigin') and glyph.verticalOrigin", rule="R04.10"),
+    M("zero-width glyphs get no hmtx advance of their own", "ufo2ft/outlineCompiler.py", "BaseOutlineCompiler.setupTable_hmtx",
+      "width = otRound(glyph.width)", "width = otRound(glyph.width or 0) if glyph.width else 0", rule="R04.10"),
     M("zero-extent boxes treated as empty (seeded C04f)", "ufo2ft/outlineCompiler.py", "OutlineTTFCompiler.makeGlyphsBoundingBoxes",
       "bounds == EMPTY_BOUNDING_BOX", "bounds.xMin == bounds.xMax and bounds.yMin == bounds.yMax", rule="R04.9"),
     M("default vertical origin hoisted out of the loop, explicit origins leak into later glyphs (seeded C04c)", "ufo2ft/outlineCompiler.py", "BaseOutlineCompiler.setupTable_vmtx",
